@@ -176,7 +176,13 @@ func (w *World) newPool(op J) error {
 	pw := &PoolWorld{w: w, conns: map[string]*Conn{}, paid: map[string]*big.Int{}}
 	pw.dep = &depositStore{inner: w.store, dep: map[store.Account]*big.Int{}}
 	interval := time.Duration(num(op, "interval")) * tick
-	mgr := balance.PayPerInterval(pw.dep, interval, w.money.real(num(op, "price")))
+	// with a payment contract the balance manager and the payment service see the store through the contract proxy
+	// (deposits; here: the deposit wrapper); without one (`raw`) they get the store driver itself, as in pool.go
+	var bs store.BalanceStore = pw.dep
+	if boolean(op, "raw") {
+		bs = w.store
+	}
+	mgr := balance.PayPerInterval(bs, interval, w.money.real(num(op, "price")))
 	if m, ok := optAmount(op, "minbal", "hasmin"); ok {
 		mgr.MinBalance = w.money.real(m)
 	}
@@ -194,7 +200,7 @@ func (w *World) newPool(op J) error {
 	pay := &payment.PaymentService{
 		NonceStore:   w.store,
 		AccountStore: w.store,
-		BalanceStore: pw.dep,
+		BalanceStore: bs,
 	}
 	fee := w.money.real(num(op, "fee"))
 	pay.WithdrawFee = func(amount *big.Int) *big.Int { return amount.Sub(amount, fee) }
@@ -447,7 +453,10 @@ func (pw *PoolWorld) signedArgs(op J, method string, wallet bool, params []inter
 		sig, err = request.Sign(key, signMethod, signIdent, signNonce, signParams...)
 	}
 	if err != nil {
-		panic(err)
+		if alter == "none" || alter == "" {
+			panic(err)
+		}
+		sig = "" // the library refuses to produce this (mis-styled) signature: send none at all, it is refused either way
 	}
 	decode := func(s string) []byte {
 		var b []byte
